@@ -147,7 +147,7 @@ fn adapt_small(mut case: Case, small: bool) -> Case {
                     }
                 }
             }
-            Entries::Counter { n, vlen, .. } => {
+            Entries::Counter { n, vlen, .. } | Entries::Noise { n, vlen, .. } => {
                 *n = (*n).min(cap as u64);
                 *vlen = (*vlen).min(200);
             }
